@@ -171,6 +171,38 @@ static std::string text_of(const T& v)
     return o.str();
 }
 
+// a type that is streamable AND implicitly convertible to std::string, the two giving different texts: the argument's
+// text is its stream representation
+struct Dual
+{
+    operator std::string() const
+    {
+        return "converted";
+    }
+};
+static std::ostream& operator<<(std::ostream& o, const Dual&)
+{
+    return o << "streamed";
+}
+// a type whose stream operator formats with sticky flags (they must not reach the next argument of any formatter)
+struct Sticky
+{
+    int v;
+};
+static std::ostream& operator<<(std::ostream& o, const Sticky& s)
+{
+    return o << std::hex << std::showbase << s.v;
+}
+// a type whose stream operator itself uses nitro::format
+struct Point
+{
+    int x, y;
+};
+static std::ostream& operator<<(std::ostream& o, const Point& p)
+{
+    return o << (nitro::format("P({}, {})") % p.x % p.y).str();
+}
+
 struct Typed
 {
     std::string name;
@@ -189,6 +221,7 @@ static const std::vector<Typed>& typed_values()
         TYPED(42),          TYPED(-7),          TYPED(2.5),      TYPED('c'),         TYPED(true),         TYPED("lit"),
         TYPED(sv),          TYPED(255u),        TYPED(1.0 / 3),  TYPED(std::hex),    TYPED(std::boolalpha), TYPED(std::setw(6)),
         TYPED(std::setprecision(2)), TYPED(std::showpos), TYPED(std::uppercase),
+        TYPED(Dual()),      TYPED(Sticky{ 255 }), TYPED((Point{ 1, 2 })),
     };
     return v;
 }
@@ -612,7 +645,7 @@ int main(int argc, char** argv)
     rep.counters["bound_format_len"] = L;
     rep.counters["formats"] = formats.size();
     rep.notes["rule"] = "every format over {'{','}','a'} of length <= bound x argument count 0..k+1 x tuples over 8 argument texts x 2 ways of "
-                        "supplying x 3 ways of reading; typed values and manipulators (tuples of <= 3 over 15) on 14 formats; exception "
+                        "supplying x 3 ways of reading; typed values and manipulators (tuples of <= 3 over 18, incl. a type that is also convertible to std::string, one with sticky flags, one that formats with nitro::format itself) on 14 formats; exception "
                         "messages alone and after every ordered pair of earlier exceptions; every history of bound_history_len events "
                         "(supply by % / args(1) / args(2) / args(), read in 3 ways, copy, move) on one formatter for 6 formats, judged at every read; non-trivial = exact-arity tuples for formats with "
                         "placeholders, and exception sequences";
